@@ -362,9 +362,9 @@ def h_holstein(ctx, P):
         nz_terms = [e]
         pp = []
         for k in range(nph):
-            # equal ground/excited frequencies for mode 0, different for mode 1 (both branches of the builder)
+            # equal ground/excited frequencies on every other (molecule, mode), different ones on the rest, all displaced
             w0 = [0.9, 1.4][k % 2] + 0.05 * i
-            w1 = w0 if k == 0 else w0 * 1.25
+            w1 = w0 if (k + i) % 2 == 0 else w0 * 1.25      # both branches of the builder on neighbouring molecules
             d = ctx.real("d%d_%d" % (i, k), 0.7 - 0.2 * k)
             ctx.assume(ctx.nonzero(d), "displacement != 0")
             ph = Phonon([Quantity(w0), Quantity(w1)], [Quantity(0), Quantity(d)] if not ctx.symbolic else [Quantity(0), QSym(d)], n_phys_dim=2)
